@@ -97,9 +97,8 @@ func main() {
 		case 2:
 			for _, a := range pool {
 				for _, b := range pool {
-					if o.name == "EXP" && b.BitLen() > 9 && a.BitLen() > 1 {
-						continue // the interpreter computes the full power a**b before truncating: would not terminate
-					}
+					// (before fix 4014336 the interpreter computed the full power a**b: large exponents did not terminate;
+					// the Lean replay still skips exponents > 4096, its model evaluates the power before reducing)
 					run(o.name, o.op, a, b)
 				}
 			}
